@@ -106,6 +106,10 @@ def build(extra_mains=(), skip_pkgs="internal/zzverif,internal/pointer", tag="st
     d = os.path.join(CACHE, key)
     marker = os.path.join(d, "OK")
     if os.path.exists(marker):
+        try:
+            os.utime(d, None)
+        except OSError:
+            pass
         return d
     with _build_lock:
         if os.path.exists(marker):
@@ -159,8 +163,11 @@ def build(extra_mains=(), skip_pkgs="internal/zzverif,internal/pointer", tag="st
             ents = [os.path.join(CACHE, e) for e in os.listdir(CACHE) if e != "tools"]
             ents = [e for e in ents if os.path.isdir(e)]
             ents.sort(key=os.path.getmtime, reverse=True)
-            for e in ents[4:]:
-                shutil.rmtree(e, ignore_errors=True)
+            # never remove an entry that may still be in use by another check running on another tree (a seeded
+            # change in a scratch worktree, a background run): only entries untouched for six hours go
+            for e in ents[6:]:
+                if time.time() - os.path.getmtime(e) > 6 * 3600:
+                    shutil.rmtree(e, ignore_errors=True)
         except OSError:
             pass
     return d
